@@ -107,6 +107,7 @@ func runNative(bin, workDir, tag string, cases []nativeCase) (map[int]nativeResu
 		cmd.Dir = workDir
 		outb, runErr := cmd.CombinedOutput()
 		got := 0
+		lastEnd := ""
 		if rf, err := os.Open(out); err == nil {
 			sc := bufio.NewScanner(rf)
 			sc.Buffer(make([]byte, 1<<20), 1<<26)
@@ -115,6 +116,7 @@ func runNative(bin, workDir, tag string, cases []nativeCase) (map[int]nativeResu
 				if json.Unmarshal(sc.Bytes(), &r) == nil {
 					results[r.ID] = r
 					got++
+					lastEnd = r.End
 				}
 			}
 			rf.Close()
@@ -122,14 +124,23 @@ func runNative(bin, workDir, tag string, cases []nativeCase) (map[int]nativeResu
 		if got >= len(rest) {
 			break
 		}
-		if got == 0 && runErr != nil {
-			// the very first case killed the process without a record
-			return results, fmt.Errorf("native replay process failed: %v\n%s", runErr, truncate(string(outb), 4000))
-		}
-		// continue after the last case that produced a record (hang exits the process)
-		rest = rest[got:]
 		if runErr == nil {
 			break
+		}
+		// the process ended abnormally while running the case after the last one that
+		// produced a record: an unrecovered panic in another goroutine (or a fatal
+		// runtime error) - recorded as a panic of that case
+		if lastEnd == "hang" {
+			// the harness reported a hang and left on purpose: go on with the next case
+			rest = rest[got:]
+			continue
+		}
+		killer := rest[got]
+		results[killer.ID] = nativeResult{ID: killer.ID, Entry: killer.Entry, End: "panic", Phase: "run",
+			Panic: "the process ended abnormally (" + runErr.Error() + "): " + truncate(lastLines(string(outb), 12), 1500)}
+		rest = rest[got+1:]
+		if round > len(cases)+2 {
+			return results, fmt.Errorf("native replay process failed repeatedly: %v\n%s", runErr, truncate(string(outb), 4000))
 		}
 	}
 	return results, nil
@@ -189,4 +200,21 @@ func compareNative(ex *nativeExpect, r nativeResult, loose bool) []string {
 		diffs = append(diffs, fmt.Sprintf("reach: symbolic %v, native %v", ex.Reach, r.Reach))
 	}
 	return diffs
+}
+
+func lastLines(s string, n int) string {
+	ls := strings.Split(strings.TrimRight(s, "\n"), "\n")
+	// the panic message sits at the start of the goroutine dump: prefer lines from "panic:" on
+	for i, l := range ls {
+		if strings.HasPrefix(l, "panic:") || strings.HasPrefix(l, "fatal error:") {
+			if i+n < len(ls) {
+				return strings.Join(ls[i:i+n], "\n")
+			}
+			return strings.Join(ls[i:], "\n")
+		}
+	}
+	if len(ls) > n {
+		ls = ls[len(ls)-n:]
+	}
+	return strings.Join(ls, "\n")
 }
